@@ -365,21 +365,56 @@ def gen_encryption() -> str:
         raise ValueError(f"is_odf_encrypted: manifest member name not found ({odf_member})")
 
     # ---- EPUB
+    # The findall pattern may be spelled as a literal, an f-string over module constants or a name: its RUN-TIME value in the
+    # module's namespace is what counts (a harmless `f".//{{{_NS}}}EncryptedData"` must not break the tie).  What the
+    # decision may depend on is checked structurally: the `return True` under the encryption.xml branch must be guarded by
+    # the truthiness of the findall result ALONE — any further condition (on EncryptionMethod algorithms, counts, URIs, …)
+    # is reported in `notes` (gen_notes_empty then fails and the failing-input search takes over).
     efn = find_func(EPUB, "_is_epub_encrypted")
+    EPm = fresh_import("sharepoint2text.parsing.extractors.epub_extractor")
     enc_path = rights_path = enc_tag = None
+
+    def _findall_value(call):
+        a = call.args[0]
+        if isinstance(a, ast.Constant) and isinstance(a.value, str):
+            return a.value
+        try:
+            v = eval(compile(ast.Expression(a), "<_is_epub_encrypted>", "eval"), dict(vars(EPm)))
+        except Exception as e:  # noqa
+            notes.append(f"_is_epub_encrypted: findall pattern {ast.unparse(a)!r} cannot be evaluated in the module namespace ({e!r})")
+            return None
+        return v if isinstance(v, str) else None
+
     for n in efn.body:
         if isinstance(n, ast.If):
             ex = _exists_args(n.test)
             if len(ex) != 1:
                 continue
-            fa = [c.args[0].value for c in ast.walk(n) if isinstance(c, ast.Call) and isinstance(c.func, ast.Attribute)
-                  and c.func.attr == "findall" and c.args and isinstance(c.args[0], ast.Constant)]
-            if fa:
+            calls = [c for c in ast.walk(n) if isinstance(c, ast.Call) and isinstance(c.func, ast.Attribute)
+                     and c.func.attr == "findall" and c.args]
+            if calls:
                 enc_path = ex[0]
-                if len(fa) == 1 and fa[0].startswith(".//"):
+                fa = [_findall_value(c) for c in calls]
+                if len(fa) == 1 and isinstance(fa[0], str) and fa[0].startswith(".//"):
                     enc_tag = fa[0][3:]
                 else:
-                    notes.append(f"_is_epub_encrypted: findall pattern {fa!r} is not './/<tag>'")
+                    notes.append(f"_is_epub_encrypted: findall pattern {fa!r} is not one './/<tag>'")
+                # names bound to the findall result
+                bound = {t.id for a in ast.walk(n) if isinstance(a, ast.Assign) and a.value in calls for t in a.targets if isinstance(t, ast.Name)}
+                rets = [i for i in ast.walk(n) if isinstance(i, ast.If) and i is not n
+                        and any(isinstance(r, ast.Return) and ast.unparse(r) == "return True" for r in i.body)]
+                for i in rets:
+                    t = i.test
+                    plain = (isinstance(t, ast.Name) and t.id in bound) or t in calls or (
+                        isinstance(t, ast.Compare) and len(t.ops) == 1 and isinstance(t.ops[0], (ast.Gt, ast.NotEq)) and isinstance(t.left, ast.Call)
+                        and isinstance(t.left.func, ast.Name) and t.left.func.id == "len" and len(t.left.args) == 1
+                        and isinstance(t.left.args[0], ast.Name) and t.left.args[0].id in bound
+                        and isinstance(t.comparators[0], ast.Constant) and t.comparators[0].value == 0)
+                    if not plain:
+                        notes.append(f"_is_epub_encrypted: the encrypted verdict under {enc_path!r} is guarded by {ast.unparse(t)!r}, "
+                                     "not by the presence of EncryptedData elements alone")
+                if not rets:
+                    notes.append(f"_is_epub_encrypted: no `return True` under the {enc_path!r} branch")
             elif len(n.body) == 1 and isinstance(n.body[0], ast.Return) and ast.unparse(n.body[0]) == "return True":
                 rights_path = ex[0]
     if None in (enc_path, rights_path, enc_tag):
